@@ -999,7 +999,14 @@ impl Gen {
                 funds.push(coin(5, "wbtc"));
             }
         } else {
-            funds.push(coin(if variant == 0 { amount + 1 } else { amount }, denom.clone()));
+            funds.push(coin(
+                match variant {
+                    0 => amount + 1,
+                    5 => amount.saturating_sub(self.rng.range(1, 900) as u128).max(1),
+                    _ => amount,
+                },
+                denom.clone(),
+            ));
             if !fee.amount.is_zero() {
                 funds.push(coin(
                     match variant {
@@ -1062,6 +1069,9 @@ impl Gen {
             0 => vec![],
             1 => vec![coin(amount + 1, denom.clone())],
             2 => vec![coin(amount, denom.clone()), coin(1, "uusdt")],
+            // attached and declared amounts differ, both multiples of the emission rate
+            3 => vec![coin(rate * (k + self.rng.range(1, 4) as u128), denom.clone())],
+            4 if k > 1 => vec![coin(rate * (k - 1), denom.clone())],
             _ => vec![coin(amount, denom.clone())],
         };
         Op::Fm {
